@@ -14,10 +14,10 @@ TESTS=$(meson test -C _build 2>&1 | grep -E "^Ok:|^Fail:" | tr -s ' ' | tr '\n' 
 g++ -std=c++20 -g -O1 -I include demo.cpp -o demo_with -pthread $FLAGS 2>/tmp/confirm_$$.err || { echo "demo does not build with change"; cat /tmp/confirm_$$.err | head; exit 2; }
 timeout 120 ./demo_with >/tmp/confirm_$$.with 2>&1; RC_WITH=$?
 # 3. demo without the change
-git stash -q -- include
+git apply -R /tmp/confirm_$$.diff
 g++ -std=c++20 -g -O1 -I include demo.cpp -o demo_without -pthread $FLAGS 2>/tmp/confirm_$$.err; B=$?
 timeout 120 ./demo_without >/tmp/confirm_$$.without 2>&1; RC_WITHOUT=$?
-git stash pop -q
+git apply /tmp/confirm_$$.diff
 rm -rf _build demo_with demo_without
 echo "tests-with-change: $TESTS | demo with change rc=$RC_WITH | demo without change rc=$RC_WITHOUT (build $B)"
 if [[ "$TESTS" == *"Ok: 1"* && "$TESTS" == *"Fail: 0"* && $RC_WITH -ne 0 && $RC_WITHOUT -eq 0 ]]; then
